@@ -63,6 +63,8 @@ func main() {
 		os.Exit(calltracerCmd(os.Args[2:]))
 	case "codec":
 		os.Exit(codecCmd(os.Args[2:]))
+	case "precompile":
+		os.Exit(precompileCmd(os.Args[2:]))
 	case "keytree":
 		os.Exit(keytreeCmd(os.Args[2:]))
 	}
